@@ -7,8 +7,10 @@ COQ_TARGETS = ["props/C20.vo", "model/RegistryCheck.vo"]
 THEOREMS = [
     ("EG.props.C20", "C20_exactly_once"),
     ("EG.props.C20", "C20_live_equals_snapshot"),
+    ("EG.props.C20", "C20_live_generation"),
     ("EG.props.C20", "C20_panic_isolated"),
     ("EG.props.C20", "C20_kind_change_is_close_then_init"),
+    ("EG.props.C20", "C20_kind_change_across_consumers"),
     ("EG.props.C20", "C20_refuted_kind_change"),
     ("EG.props.C20", "C20_order_independent"),
     ("EG.props.C20", "C20_untouched_when_unchanged"),
@@ -17,9 +19,9 @@ THEOREMS = [
 HARNESSES = [
     dict(name="sup", pkg="pkg/supervisor", files=["harness/supervisor/zz_verif_c20_test.go"],
          run="TestVerifC20", groups=["sup"], timeout=600, share=0.7),
-    #TC dict(name="tc", pkg="pkg/object/rawconfigtrafficcontroller", pkgname="rawconfigtrafficcontroller",
-    #TC     files=["harness/rawconfigtrafficcontroller/zz_verif_c20_test.go"],
-    #TC     run="TestVerifC20TC", groups=["tc"], timeout=600, share=0.3),
+    dict(name="tc", pkg="pkg/object/rawconfigtrafficcontroller", pkgname="rawconfigtrafficcontroller",
+        files=["harness/rawconfigtrafficcontroller/zz_verif_c20_test.go"],
+        run="TestVerifC20TC", groups=["tc"], timeout=600, share=0.3),
 ]
 GROUPS = {"sup": "check_sup", "tc": "check_tc"}
 EXPLAIN = {"sup": "explain_sup", "tc": "explain_tc"}
